@@ -1026,6 +1026,9 @@ def config_matrix():
                             if v is not None:
                                 case[k] = v
                         out.append(case)
+        # degenerate citation lists: nothing cited (nothing is formatted), only unknown keys, a key cited twice, a wild card next to explicit keys
+        for cites in ([], ['nosuch'], ['nosuch', 'nosuch2'], ['aa', 'aa'], ['mm', 'zz', 'mm'], ['*', 'aa'], ['bb', '*']):
+            out.append({'op': 'pystyle', 'entries': entries, 'citations': cites, 'min_crossrefs': 2, 'style': st})
     return out
 
 
